@@ -388,6 +388,13 @@ def big_SetString(ex, st, args, ctx):
         g = uf(ex, 'reinterpret_ok_%s%d_as_%d' % (prefix, b, base), z3.BitVecSort(BIG), z3.BoolSort())
         ok = g(v)
         return Forks([(ok, lambda s2: _setstr_ok(ex, s2, args[0], f(v)), None), (z3.Not(ok), (NIL, z3.BoolVal(False)), None)])
+    zs = z3.simplify(s.z)
+    if z3.is_string_value(zs) and base == 0:
+        val = go_setstring0(zs.as_string())
+        if val is None or val < 0 or val >= (1 << BIG):
+            return (NIL, z3.BoolVal(False))
+        ex.store(st, args[0], Big(bvval(val, BIG)))
+        return (args[0], z3.BoolVal(True))
     isnum = uf(ex, 'isNumber_base%d' % base, z3.StringSort(), z3.BoolSort())
     numval = uf(ex, 'numval_base%d' % base, z3.StringSort(), z3.BitVecSort(BIG))
     ok = isnum(s.z)
@@ -1810,3 +1817,28 @@ def read_system_from_file(ex, st, args, ctx):
             return (ps, Iface(-1, Opaque('error', msg=S('truncated or unreadable keys file'), origin=ctx['pos'])))
         return f
     return Forks([(c == 0, ok, None), (c == 1, bad(False), None), (c == 2, bad(True), None)])
+
+
+# ------------------------------------------------------------------------------------------ executing gadget definitions (C05 purity)
+def abstractor_Call_exec(unwrap):
+    def f(ex, st, args, ctx):
+        used('abstractor.Call*: runs the gadget\'s DefineGadget on the stub API (used when the definition code itself is the subject)')
+        g = args[1]
+        m = find_method(ex, g.t, 'DefineGadget')
+        if m is None or m not in ex.funcs:
+            raise Unsupported('gadget %s has no DefineGadget body' % ex.tname(g.t))
+        return ('tailcall', m, [g.v, args[0]], (lambda v: v.v if (unwrap and isinstance(v, Iface)) else v))
+    return f
+
+
+def api_any(ex, st, args, ctx):
+    return Iface(-2, Opaque('var'))
+
+
+INTRINSICS.update({'verifVar': lambda ex, st, a, c: Iface(-2, Opaque('var'))})
+
+
+def gadget_exec_stubs():
+    A = 'github.com/reilabs/gnark-lean-extractor/v2/abstractor.'
+    return {A + 'Call': abstractor_Call_exec(False), A + 'Call1': abstractor_Call_exec(True), A + 'Call2': abstractor_Call_exec(True), A + 'Call3': abstractor_Call_exec(True),
+            A + 'CallVoid': abstractor_Call_exec(False), 'prefix': [('opaque:api.', api_any)]}
